@@ -183,3 +183,8 @@ package merkleblock
 //@ func merkleblock.(*PartialBlock).BadTree
 //@   ensures result == m.bad
 //@   modifies nothing
+
+// the package initialiser: the transaction-count limit is the block payload limit divided by 61
+//@ func merkleblock.init
+//@   ensures $calls_MaxBlockPayload <= 1 && ($calls_MaxBlockPayload == 1 ==> MaxTxnCount == $ret_MaxBlockPayload#1 / 61)
+//@   ensures $calls_MaxBlockPayload == 0 ==> MaxTxnCount == old(MaxTxnCount)
